@@ -132,8 +132,13 @@ class Prop(PropBase):
                 x = self.da.from_array(x, chunks=-1)
             kw = dict(sample_rate=self._val(a["rate"], "rate"), start_time=self._val(a["start"], "start"),
                       meta=self._val(a["meta"], "meta"))
+            for k in ("start_time", "meta"):       # None is the documented default: left out in every second case
+                if kw[k] is None and len(case["shape"]) % 2 == 0:
+                    del kw[k]
             if cls != "Signal":
                 kw.update(center_freq=self._val(a["cf"], "cf"), freq_align=a["align"])
+                if a["align"] == "center" and sum(case["shape"]) % 2 == 0:
+                    del kw["freq_align"]            # the documented default
                 if not sigs.is_complex(cls):
                     kw["chan_bw"] = self._val(a["bw"], "bw")
             if cls == "DualPolarizationSignal":
